@@ -103,7 +103,7 @@ End AssocLemmas.
    textx/metamodel.py): the functions driven by the generated facts ARE the documented ones.
    Each proof computes with the generated definitions, so it fails when the source searches in
    another order, splits qualified names elsewhere, stops normalising import names, registers
-   imports only on first load, or builds _tx_fqn differently. *)
+   imports only on first load_doc, or builds _tx_fqn differently. *)
 Lemma lookup_src_doc s cur name : lookup s cur name = lookup_doc s cur name.
 Proof.
   unfold lookup, lookup_doc, qualified_split_last, lookup_steps.
@@ -113,7 +113,7 @@ Proof.
 Qed.
 
 Lemma new_import_src_doc rec stk cur imp s : new_import rec stk cur imp s = new_import_doc rec stk cur imp s.
-Proof. unfold new_import, register_import_always. reflexivity. Qed.
+Proof. unfold new_import, register_import_always, stack_balanced, nested_ops. reflexivity. Qed.
 
 Lemma abs_import_normalised cur imp : abs_import cur imp = norm_dots (rel_import cur imp).
 Proof. unfold abs_import, normalise_import. reflexivity. Qed.
@@ -209,7 +209,7 @@ Lemma cycle_unexisting_fails :
   spec_resolve ex_unexisting [98]%N [88]%N = Some ([97], [88])%N.
 Proof. split; vm_compute; reflexivity. Qed.
 
-(* ------------------------------------------------------------------ generic induction over load *)
+(* ------------------------------------------------------------------ generic induction over load_doc *)
 Lemma has_err_false s : has_err s = false <-> serr s = None.
 Proof. unfold has_err. destruct (serr s); split; intro H; try reflexivity; discriminate. Qed.
 
@@ -268,9 +268,9 @@ Section LoadRel.
   Lemma second_pass_err ns f s : serr s <> None -> second_pass ns f s = s.
   Proof. intro H. unfold second_pass, has_err. destruct (serr s); [reflexivity | contradiction]. Qed.
 
-  Lemma load_rel : forall fuel stk ns s, R s (load fuel fs stk ns s).
+  Lemma load_rel : forall fuel stk ns s, R s (load_doc fuel fs stk ns s).
   Proof.
-    induction fuel as [|fuel IH]; intros stk ns s; cbn [load];
+    induction fuel as [|fuel IH]; intros stk ns s; cbn [load_doc];
       (destruct (has_err s) eqn:He; [apply R_refl|]); apply has_err_false in He;
       (destruct (aget ns fs) as [f|] eqn:Hf; [|apply R_set_err; exact He]).
     - apply R_set_err; exact He.
@@ -359,7 +359,7 @@ Qed.
 Lemma app_nil_inv {A} (l l' : list A) : l ++ l' = [] -> l = [].
 Proof. destruct l; [reflexivity | discriminate]. Qed.
 
-Lemma grow_load fs fuel stk ns s : grow s (load fuel fs stk ns s).
+Lemma grow_load fs fuel stk ns s : grow s (load_doc fuel fs stk ns s).
 Proof.
   apply load_rel.
   - apply grow_refl.
@@ -489,7 +489,7 @@ Section Inv.
       + eapply C; eassumption.
   Qed.
 
-  Lemma CF_load fuel stk ns s : CF s -> CF (load fuel fs stk ns s).
+  Lemma CF_load fuel stk ns s : CF s -> CF (load_doc fuel fs stk ns s).
   Proof.
     apply (load_rel fs (fun s s' => CF s -> CF s')).
     - auto.
@@ -729,20 +729,20 @@ Section Main2.
 
   Definition LoadSpec (fuel : nat) : Prop :=
     forall stk ns s, Good (ns :: stk) s -> has_ns s ns = true -> imports_of s ns = [BASE] ->
-      serr (load fuel fs stk ns s) = None ->
-      Good stk (load fuel fs stk ns s) /\ In ns (done (load fuel fs stk ns s)) /\
-      (forall k, has_ns s k = true -> k <> ns -> imports_of (load fuel fs stk ns s) k = imports_of s k) /\
+      serr (load_doc fuel fs stk ns s) = None ->
+      Good stk (load_doc fuel fs stk ns s) /\ In ns (done (load_doc fuel fs stk ns s)) /\
+      (forall k, has_ns s k = true -> k <> ns -> imports_of (load_doc fuel fs stk ns s) k = imports_of s k) /\
       (forall f, aget ns fs = Some f ->
-         imports_of (load fuel fs stk ns s) ns = BASE :: map (abs_import ns) (gimports f) /\
-         forall a, In a (map (abs_import ns) (gimports f)) -> has_ns (load fuel fs stk ns s) a = true).
+         imports_of (load_doc fuel fs stk ns s) ns = BASE :: map (abs_import ns) (gimports f) /\
+         forall a, In a (map (abs_import ns) (gimports f)) -> has_ns (load_doc fuel fs stk ns s) a = true).
 
   Lemma imports_some t ns l : imports_of t ns = BASE :: l -> aget ns (imported t) <> None.
   Proof. unfold imports_of. destruct (aget ns (imported t)); [discriminate | intro H; discriminate H]. Qed.
 
   Lemma import_step fuel stk ns s0 pre imp t : LoadSpec fuel ->
     Mid stk ns s0 pre t ->
-    serr (new_import (load fuel fs (ns :: stk)) (ns :: stk) ns imp t) = None ->
-    Mid stk ns s0 (pre ++ [imp]) (new_import (load fuel fs (ns :: stk)) (ns :: stk) ns imp t).
+    serr (new_import (load_doc fuel fs (ns :: stk)) (ns :: stk) ns imp t) = None ->
+    Mid stk ns s0 (pre ++ [imp]) (new_import (load_doc fuel fs (ns :: stk)) (ns :: stk) ns imp t).
   Proof.
     intros IH (HG & Hns & Himp & Hdone & Hframe & Hhas).
     pose proof HG as (He & Hcf & Hbc & Hdi & Hlk & Hos).
@@ -779,9 +779,9 @@ Section Main2.
         * rewrite imports_of_add_other by exact Hne. unfold imports_of in *. rewrite E2. exact F2.
       + intros x Hx. rewrite Hpre in Hx. apply in_app_or in Hx as [Hx|[<-|[]]];
           unfold has_ns in *; cbn [spaces add_imported]; rewrite E1; [apply Hhas; exact Hx | exact Ha].
-    - (* a new namespace: load its file completely, then record the import *)
+    - (* a new namespace: load_doc its file completely, then record the import *)
       set (t1 := enter a t).
-      set (s1 := load fuel fs (ns :: stk) a t1).
+      set (s1 := load_doc fuel fs (ns :: stk) a t1).
       destruct (has_err s1) eqn:He1; [intro H; apply has_err_false in H; congruence|].
       apply has_err_false in He1. intros _.
       assert (Hsync : sync t) by apply Hcf.
@@ -827,13 +827,13 @@ Section Main2.
 
   Lemma import_fold fuel stk ns s0 : LoadSpec fuel -> forall rest pre t,
     Mid stk ns s0 pre t ->
-    serr (fold_left (fun s imp => new_import (load fuel fs (ns :: stk)) (ns :: stk) ns imp s) rest t) = None ->
+    serr (fold_left (fun s imp => new_import (load_doc fuel fs (ns :: stk)) (ns :: stk) ns imp s) rest t) = None ->
     Mid stk ns s0 (pre ++ rest)
-        (fold_left (fun s imp => new_import (load fuel fs (ns :: stk)) (ns :: stk) ns imp s) rest t).
+        (fold_left (fun s imp => new_import (load_doc fuel fs (ns :: stk)) (ns :: stk) ns imp s) rest t).
   Proof.
     intros IH. induction rest as [|i rest IHr]; intros pre t HM He; cbn [fold_left] in *.
     - rewrite app_nil_r. exact HM.
-    - set (t1 := new_import (load fuel fs (ns :: stk)) (ns :: stk) ns i t) in *.
+    - set (t1 := new_import (load_doc fuel fs (ns :: stk)) (ns :: stk) ns i t) in *.
       assert (He1 : serr t1 = None).
       { destruct (serr t1) eqn:E; [|reflexivity]. rewrite fold_imports_err in He by (rewrite E; discriminate). congruence. }
       replace (pre ++ i :: rest) with ((pre ++ [i]) ++ rest) by (rewrite <- app_assoc; reflexivity).
@@ -842,7 +842,7 @@ Section Main2.
 
   Lemma load_good : forall fuel, LoadSpec fuel.
   Proof.
-    induction fuel as [|fuel IH]; intros stk ns s HG Hns Himp; cbn [load];
+    induction fuel as [|fuel IH]; intros stk ns s HG Hns Himp; cbn [load_doc];
       pose proof HG as (He & Hcf & Hbc & Hdi & Hlk & Hos);
       rewrite (proj2 (has_err_false s) He);
       (destruct (aget ns fs) as [f|] eqn:Hf; [|cbn [serr set_err]; discriminate]).
@@ -942,8 +942,8 @@ Section Top.
   Lemma has_ns_init_main : has_ns init main = false.
   Proof. destruct (has_ns init main) eqn:E; [|reflexivity]. apply has_ns_init in E. contradiction. Qed.
 
-  Lemma CF_main : CF fs (load_main fs main).
-  Proof. unfold load_main. apply CF_load. apply CF_enter; [exact has_ns_init_main | apply CF_init]. Qed.
+  Lemma CF_main : CF fs (load_main_doc fs main).
+  Proof. unfold load_main_doc. apply CF_load. apply CF_enter; [exact has_ns_init_main | apply CF_init]. Qed.
 
   Lemma start_good : Good fs [main] (enter main init) /\ has_ns (enter main init) main = true /\
                      imports_of (enter main init) main = [BASE].
@@ -960,11 +960,11 @@ Section Top.
       destruct (str_eqb main BASE) eqn:E; [apply str_eqb_eq in E; contradiction | reflexivity].
   Qed.
 
-  Lemma main_result : serr (load_main fs main) = None ->
-    Good fs [] (load_main fs main) /\ In main (done (load_main fs main)) /\
+  Lemma main_result : serr (load_main_doc fs main) = None ->
+    Good fs [] (load_main_doc fs main) /\ In main (done (load_main_doc fs main)) /\
     (forall f, aget main fs = Some f ->
-       imports_of (load_main fs main) main = BASE :: map (abs_import main) (gimports f) /\
-       forall a, In a (map (abs_import main) (gimports f)) -> has_ns (load_main fs main) a = true).
+       imports_of (load_main_doc fs main) main = BASE :: map (abs_import main) (gimports f) /\
+       forall a, In a (map (abs_import main) (gimports f)) -> has_ns (load_main_doc fs main) a = true).
   Proof.
     intro He. destruct start_good as (G & Hn & Hi).
     destruct (load_good fs Hbase (S (length fs)) [] main (enter main init) G Hn Hi He) as (A & B & _ & D).
@@ -973,22 +973,22 @@ Section Top.
 
   (* every reference recorded by a second pass is the documented one, when every followed
      import of a grammar still being loaded is harmless ([safe]); in particular when there is none *)
-  Lemma links_spec_safe : serr (load_main fs main) = None -> safe fs (load_main fs main) = true ->
-    forall l, In l (links (load_main fs main)) -> link_ok fs l.
+  Lemma links_spec_safe : serr (load_main_doc fs main) = None -> safe fs (load_main_doc fs main) = true ->
+    forall l, In l (links (load_main_doc fs main)) -> link_ok fs l.
   Proof. intros He Hb. destruct (main_result He) as ((_ & _ & _ & _ & Hlk & _) & _). apply Hlk. exact Hb. Qed.
 
-  Lemma links_spec : serr (load_main fs main) = None -> backs (load_main fs main) = [] ->
-    forall l, In l (links (load_main fs main)) -> link_ok fs l.
+  Lemma links_spec : serr (load_main_doc fs main) = None -> backs (load_main_doc fs main) = [] ->
+    forall l, In l (links (load_main_doc fs main)) -> link_ok fs l.
   Proof. intros He Hb. apply links_spec_safe; [exact He|]. unfold safe. rewrite Hb. reflexivity. Qed.
 
-  Lemma main_file : serr (load_main fs main) = None -> exists f, aget main fs = Some f.
+  Lemma main_file : serr (load_main_doc fs main) = None -> exists f, aget main fs = Some f.
   Proof.
-    unfold load_main. cbn [load]. destruct (has_err (enter main init)) eqn:E; [discriminate E|].
+    unfold load_main_doc. cbn [load_doc]. destruct (has_err (enter main init)) eqn:E; [discriminate E|].
     destruct (aget main fs) as [f|]; [intros _; exists f; reflexivity | cbn [serr set_err]; discriminate].
   Qed.
 
-  Lemma main_ready : serr (load_main fs main) = None ->
-    exists f, Ready fs main f (load_main fs main) /\ forall name, OkImps fs main f (load_main fs main) name.
+  Lemma main_ready : serr (load_main_doc fs main) = None ->
+    exists f, Ready fs main f (load_main_doc fs main) /\ forall name, OkImps fs main f (load_main_doc fs main) name.
   Proof.
     intro He. destruct (main_file He) as [f Hf]. exists f.
     destruct (main_result He) as ((_ & _ & _ & Hdi & _ & Hos) & Hd & Himp).
@@ -998,17 +998,17 @@ Section Top.
     - intros name a Ha. destruct (Hos a (Hh a Ha)) as [H|[H|[]]]; [right; left; exact H | left; exact H].
   Qed.
 
-  (* metamodel[name] after a successful load, cycles or not *)
-  Lemma final_lookup : serr (load_main fs main) = None -> forall name c,
-    lookup (load_main fs main) main name = Some c -> Some (cls_key c) = spec_resolve fs main name.
+  (* metamodel[name] after a successful load_doc, cycles or not *)
+  Lemma final_lookup : serr (load_main_doc fs main) = None -> forall name c,
+    lookup (load_main_doc fs main) main name = Some c -> Some (cls_key c) = spec_resolve fs main name.
   Proof.
     intros He name c H. destruct (main_ready He) as (f & Hr & Hok).
     destruct (main_result He) as ((_ & Hcf & Hbc & Hdi & _) & _).
     eapply (ready_lookup fs Hbase); [exact Hr | intros _; apply Hok | apply Hcf | exact Hdi | exact Hbc | exact H].
   Qed.
 
-  Lemma final_lookup_none : serr (load_main fs main) = None -> forall name, has_dot name = false ->
-    lookup (load_main fs main) main name = None -> spec_resolve fs main name = None.
+  Lemma final_lookup_none : serr (load_main_doc fs main) = None -> forall name, has_dot name = false ->
+    lookup (load_main_doc fs main) main name = None -> spec_resolve fs main name = None.
   Proof.
     intros He name Hd H. destruct (main_ready He) as (f & Hr & Hok).
     destruct (main_result He) as ((_ & Hcf & Hbc & Hdi & _) & _).
@@ -1017,7 +1017,7 @@ Section Top.
 
   (* the class tables: a class sits under its own name in the namespace of its file and
      reports that file-based name; two entries never share a class *)
-  Lemma classes_fqn : forall a n c, lookup_in (load_main fs main) a n = Some c ->
+  Lemma classes_fqn : forall a n c, lookup_in (load_main_doc fs main) a n = Some c ->
     c_ns c = a /\ c_name c = n /\ fqn c = (if str_eqb a BASE then n else a ++ DOT :: n).
   Proof.
     intros a n c H. destruct CF_main as (_ & B & _). apply B in H as (H1 & H2 & _).
@@ -1025,7 +1025,7 @@ Section Top.
   Qed.
 
   Lemma classes_distinct : forall a n c a' n' c',
-    lookup_in (load_main fs main) a n = Some c -> lookup_in (load_main fs main) a' n' = Some c' ->
+    lookup_in (load_main_doc fs main) a n = Some c -> lookup_in (load_main_doc fs main) a' n' = Some c' ->
     c_id c = c_id c' -> a = a' /\ n = n'.
   Proof. destruct CF_main as (_ & _ & C). exact C. Qed.
 End Top.
@@ -1067,10 +1067,10 @@ Section Once.
   Qed.
 
   Definition OnceSpec (fuel : nat) : Prop := forall stk ns s,
-    NL s -> ~ In ns (loads s) -> has_ns s ns = true -> NL (load fuel fs stk ns s).
+    NL s -> ~ In ns (loads s) -> has_ns s ns = true -> NL (load_doc fuel fs stk ns s).
 
   Lemma NL_import fuel stk cur imp t : OnceSpec fuel -> NL t ->
-    NL (new_import (load fuel fs stk) stk cur imp t).
+    NL (new_import (load_doc fuel fs stk) stk cur imp t).
   Proof.
     intros IH H. rewrite new_import_src_doc. unfold new_import_doc. destruct (has_err t); [exact H|].
     set (a := abs_import cur imp).
@@ -1078,16 +1078,16 @@ Section Once.
     - set (s1 := if mem_str a stk then note_back cur a t else t).
       assert (H1 : NL s1) by (unfold s1; destruct (mem_str a stk); [apply (NL_same t); [reflexivity | apply has_ns_spaces; reflexivity | exact H] | exact H]).
       destruct (has_err s1); [exact H1|]. apply (NL_same s1); [reflexivity | apply has_ns_spaces; reflexivity | exact H1].
-    - assert (H1 : NL (load fuel fs stk a (enter a t))).
+    - assert (H1 : NL (load_doc fuel fs stk a (enter a t))).
       { apply IH.
         - destruct H as [A B]. split; [exact A|]. intros x Hx. rewrite has_ns_enter, (B x Hx). reflexivity.
         - intro Hin. destruct H as [_ B]. cbn [loads enter] in Hin. rewrite (B a Hin) in Ha. discriminate.
         - rewrite has_ns_enter, str_eqb_refl. apply orb_true_r. }
-      destruct (has_err _); [exact H1|]. apply (NL_same (load fuel fs stk a (enter a t))); [reflexivity | apply has_ns_spaces; reflexivity | exact H1].
+      destruct (has_err _); [exact H1|]. apply (NL_same (load_doc fuel fs stk a (enter a t))); [reflexivity | apply has_ns_spaces; reflexivity | exact H1].
   Qed.
 
   Lemma NL_imports fuel stk cur imps : OnceSpec fuel -> forall t, NL t ->
-    NL (fold_left (fun s imp => new_import (load fuel fs stk) stk cur imp s) imps t).
+    NL (fold_left (fun s imp => new_import (load_doc fuel fs stk) stk cur imp s) imps t).
   Proof.
     intro IH. induction imps as [|i imps IHi]; intros t H; cbn [fold_left]; [exact H|].
     apply IHi. apply NL_import; assumption.
@@ -1095,7 +1095,7 @@ Section Once.
 
   Lemma load_once : forall fuel, OnceSpec fuel.
   Proof.
-    induction fuel as [|fuel IH]; intros stk ns s H Hfresh Hns; cbn [load];
+    induction fuel as [|fuel IH]; intros stk ns s H Hfresh Hns; cbn [load_doc];
       (destruct (has_err s); [exact H|]);
       (destruct (aget ns fs) as [f|]; [|apply (NL_same s); [reflexivity | apply has_ns_spaces; reflexivity | exact H]]).
     - apply (NL_same s); [reflexivity | apply has_ns_spaces; reflexivity | exact H].
@@ -1106,9 +1106,9 @@ Section Once.
         apply in_app_or in Ha as [Ha|[<-|[]]]; [apply B; exact Ha | exact Hns].
   Qed.
 
-  Lemma loads_once main : main <> BASE -> NoDup (loads (load_main fs main)).
+  Lemma loads_once main : main <> BASE -> NoDup (loads (load_main_doc fs main)).
   Proof.
-    intro Hm. unfold load_main. apply load_once.
+    intro Hm. unfold load_main_doc. apply load_once.
     - split; [constructor | intros a []].
     - intros [].
     - rewrite has_ns_enter, str_eqb_refl. apply orb_true_r.
@@ -1144,7 +1144,7 @@ Section Term.
   Qed.
 
   Definition NF (s : st) : Prop := serr s <> Some EFuel.
-  Definition TermSpec (fuel : nat) : Prop := forall stk ns s, NF s -> unl s < fuel -> NF (load fuel fs stk ns s).
+  Definition TermSpec (fuel : nat) : Prop := forall stk ns s, NF s -> unl s < fuel -> NF (load_doc fuel fs stk ns s).
 
   Lemma NF_same s s' : serr s' = serr s -> NF s -> NF s'.
   Proof. unfold NF. intros -> H. exact H. Qed.
@@ -1166,7 +1166,7 @@ Section Term.
   Proof. intro H. unfold unl, unl_in, has_ns. rewrite H. reflexivity. Qed.
 
   Lemma term_import fuel stk cur imp t : TermSpec fuel -> NF t -> unl t <= fuel ->
-    NF (new_import (load fuel fs stk) stk cur imp t) /\ unl (new_import (load fuel fs stk) stk cur imp t) <= fuel.
+    NF (new_import (load_doc fuel fs stk) stk cur imp t) /\ unl (new_import (load_doc fuel fs stk) stk cur imp t) <= fuel.
   Proof.
     intros IH Hn Hu. rewrite new_import_src_doc. unfold new_import_doc. destruct (has_err t); [split; assumption|].
     set (a := abs_import cur imp).
@@ -1177,7 +1177,7 @@ Section Term.
       destruct (has_err s1); (split; [apply (NF_same t); [exact E1 | exact Hn] |]).
       + pose proof (unl_spaces _ _ E2). lia.
       + pose proof (unl_spaces (add_imported cur a s1) s1 eq_refl). pose proof (unl_spaces _ _ E2). lia.
-    - set (t1 := enter a t). set (s1 := load fuel fs stk a t1).
+    - set (t1 := enter a t). set (s1 := load_doc fuel fs stk a t1).
       assert (Hmono : forall k, has_ns t k = true -> has_ns t1 k = true) by (intros k Hk; unfold t1; rewrite has_ns_enter, Hk; reflexivity).
       pose proof (grow_load fs fuel stk a t1) as Hg. fold s1 in Hg.
       assert (Hu1 : unl s1 <= fuel).
@@ -1188,12 +1188,12 @@ Section Term.
           assert (Hlt : unl_in fs t1 < unl_in fs t).
           { apply (unl_strict fs t t1 a f Hmono Hf Ha). unfold t1. rewrite has_ns_enter, str_eqb_refl. apply orb_true_r. }
           unfold unl in *. lia.
-        - destruct fuel; cbn [load]; (destruct (has_err t1); [exact Hn|]); rewrite Hf; unfold NF; cbn [serr set_err]; discriminate. }
+        - destruct fuel; cbn [load_doc]; (destruct (has_err t1); [exact Hn|]); rewrite Hf; unfold NF; cbn [serr set_err]; discriminate. }
       destruct (has_err s1); (split; [exact Hn1 | exact Hu1]).
   Qed.
 
   Lemma term_imports fuel stk cur imps : TermSpec fuel -> forall t, NF t -> unl t <= fuel ->
-    NF (fold_left (fun s imp => new_import (load fuel fs stk) stk cur imp s) imps t).
+    NF (fold_left (fun s imp => new_import (load_doc fuel fs stk) stk cur imp s) imps t).
   Proof.
     intro IH. induction imps as [|i imps IHi]; intros t Hn Hu; cbn [fold_left]; [exact Hn|].
     destruct (term_import fuel stk cur i t IH Hn Hu) as [A B]. apply IHi; assumption.
@@ -1201,7 +1201,7 @@ Section Term.
 
   Lemma load_terminates : forall fuel, TermSpec fuel.
   Proof.
-    induction fuel as [|fuel IH]; intros stk ns s Hn Hu; [lia|]. cbn [load].
+    induction fuel as [|fuel IH]; intros stk ns s Hn Hu; [lia|]. cbn [load_doc].
     destruct (has_err s); [exact Hn|].
     destruct (aget ns fs) as [f|]; [|unfold NF; cbn [serr set_err]; discriminate].
     cbv zeta. apply NF_second. apply NF_classes. apply term_imports.
@@ -1216,10 +1216,10 @@ Section Term.
     destruct (negb (has_ns s (fst p))); cbn [length]; lia.
   Qed.
 
-  (* any import graph, cycles included: the load never runs out of fuel |fs|+1 *)
-  Lemma load_main_terminates main : serr (load_main fs main) <> Some EFuel.
+  (* any import graph, cycles included: the load_doc never runs out of fuel |fs|+1 *)
+  Lemma load_main_terminates main : serr (load_main_doc fs main) <> Some EFuel.
   Proof.
-    unfold load_main. apply load_terminates; [unfold NF; cbn; discriminate|].
+    unfold load_main_doc. apply load_terminates; [unfold NF; cbn; discriminate|].
     pose proof (unl_le (enter main init)). lia.
   Qed.
 End Term.
@@ -1248,11 +1248,11 @@ Section Count.
   Proof. intros L C. exists []. split; [rewrite app_nil_r; exact L | unfold Imports.nrules_of; cbn; lia]. Qed.
 
   Definition CountSpec (fuel : nat) : Prop := forall stk ns s,
-    serr (load fuel fs stk ns s) = None -> Delta s (load fuel fs stk ns s).
+    serr (load_doc fuel fs stk ns s) = None -> Delta s (load_doc fuel fs stk ns s).
 
   Lemma count_import fuel stk cur imp t : CountSpec fuel ->
-    serr (new_import (load fuel fs stk) stk cur imp t) = None ->
-    Delta t (new_import (load fuel fs stk) stk cur imp t).
+    serr (new_import (load_doc fuel fs stk) stk cur imp t) = None ->
+    Delta t (new_import (load_doc fuel fs stk) stk cur imp t).
   Proof.
     intros IH. rewrite new_import_src_doc. unfold new_import_doc. destruct (has_err t); [intros _; apply Delta_refl|].
     set (a := abs_import cur imp).
@@ -1260,7 +1260,7 @@ Section Count.
     - set (s1 := if mem_str a stk then note_back cur a t else t).
       assert (E : loads s1 = loads t /\ created s1 = created t) by (unfold s1; destruct (mem_str a stk); split; reflexivity).
       destruct E as [E1 E2]. destruct (has_err s1); intros _; apply Delta_same; cbn [loads created add_imported]; assumption.
-    - set (s1 := load fuel fs stk a (enter a t)).
+    - set (s1 := load_doc fuel fs stk a (enter a t)).
       destruct (has_err s1) eqn:He1; [intro H; apply has_err_false in H; congruence|].
       apply has_err_false in He1. intros _.
       apply (Delta_trans _ (enter a t)); [apply Delta_same; reflexivity|].
@@ -1268,11 +1268,11 @@ Section Count.
   Qed.
 
   Lemma count_imports fuel stk cur imps : CountSpec fuel -> forall t,
-    serr (fold_left (fun s imp => new_import (load fuel fs stk) stk cur imp s) imps t) = None ->
-    Delta t (fold_left (fun s imp => new_import (load fuel fs stk) stk cur imp s) imps t).
+    serr (fold_left (fun s imp => new_import (load_doc fuel fs stk) stk cur imp s) imps t) = None ->
+    Delta t (fold_left (fun s imp => new_import (load_doc fuel fs stk) stk cur imp s) imps t).
   Proof.
     intro IH. induction imps as [|i imps IHi]; intros t He; cbn [fold_left] in *; [apply Delta_refl|].
-    set (t1 := new_import (load fuel fs stk) stk cur i t) in *.
+    set (t1 := new_import (load_doc fuel fs stk) stk cur i t) in *.
     assert (He1 : serr t1 = None).
     { destruct (serr t1) eqn:E; [|reflexivity]. rewrite fold_imports_err in He by (rewrite E; discriminate). congruence. }
     apply (Delta_trans _ t1); [apply count_import; assumption | apply IHi; exact He].
@@ -1290,7 +1290,7 @@ Section Count.
 
   Lemma load_count : forall fuel, CountSpec fuel.
   Proof.
-    induction fuel as [|fuel IH]; intros stk ns s; cbn [load];
+    induction fuel as [|fuel IH]; intros stk ns s; cbn [load_doc];
       (destruct (has_err s); [intros _; apply Delta_refl|]);
       (destruct (aget ns fs) as [f|] eqn:Hf; [|cbn [serr set_err]; discriminate]).
     - cbn [serr set_err]; discriminate.
@@ -1319,20 +1319,82 @@ Section Count.
         change (nrules_of (ns :: new)) with (nrules ns + nrules_of new). rewrite Hn. lia.
   Qed.
 
-  (* a successful load creates, besides the 9 built-in classes, exactly one class per rule of
+  (* a successful load_doc creates, besides the 9 built-in classes, exactly one class per rule of
      every file read *)
-  Lemma created_count main : serr (load_main fs main) = None ->
-    created (load_main fs main) = length base_names + nrules_of (loads (load_main fs main)).
+  Lemma created_count main : serr (load_main_doc fs main) = None ->
+    created (load_main_doc fs main) = length base_names + nrules_of (loads (load_main_doc fs main)).
   Proof.
-    intro He. unfold load_main in *. destruct (load_count _ _ _ _ He) as (new & L & C).
+    intro He. unfold load_main_doc in *. destruct (load_count _ _ _ _ He) as (new & L & C).
     rewrite C, L. reflexivity.
   Qed.
 End Count.
 
 Lemma one_class_set fs main : main <> BASE ->
   (forall a n c a' n' c',
+     lookup_in (load_main_doc fs main) a n = Some c -> lookup_in (load_main_doc fs main) a' n' = Some c' ->
+     c_id c = c_id c' -> a = a' /\ n = n') /\
+  (serr (load_main_doc fs main) = None ->
+   created (load_main_doc fs main) = length base_names + nrules_of fs (loads (load_main_doc fs main))).
+Proof. intro H. split; [apply classes_distinct; exact H | apply created_count]. Qed.
+
+(* ------------------------------------------------------------------ the load algorithm of the source *)
+(* Obligation re-proved against Gen/SrcImports.v: with the facts found in the source (imports
+   visited in textual order; both passes of an imported grammar run inside _new_import; the
+   namespace stack is entered before and left after the nested load) the source-driven load is
+   the documented one, about which everything above is proved. *)
+Lemma fold_left_ext {A B} (f g : A -> B -> A) l : forall a, (forall a b, f a b = g a b) -> fold_left f l a = fold_left g l a.
+Proof. induction l as [|x l IH]; intros a H; cbn [fold_left]; [reflexivity|]. rewrite H. apply IH. exact H. Qed.
+
+Lemma new_import_doc_ext rec rec' stk cur imp s : (forall a t, rec a t = rec' a t) ->
+  new_import_doc rec stk cur imp s = new_import_doc rec' stk cur imp s.
+Proof. intro H. unfold new_import_doc. rewrite H. reflexivity. Qed.
+
+Lemma load_src_doc fs : forall fuel stk ns s, load fuel fs stk ns s = load_doc fuel fs stk ns s.
+Proof.
+  induction fuel as [|fuel IH]; intros stk ns s; cbn [load load_doc]; [reflexivity|].
+  destruct (has_err s); [reflexivity|]. destruct (aget ns fs) as [f|]; [|reflexivity].
+  unfold imports_in_text_order, second_pass_inside_import. cbv zeta.
+  rewrite (fold_left_ext _ (fun s imp => new_import (load_doc fuel fs (ns :: stk)) (ns :: stk) ns imp s)); [reflexivity|].
+  intros a b. rewrite !new_import_src_doc. apply new_import_doc_ext. intros x t. apply IH.
+Qed.
+
+Lemma load_main_src_doc fs main : load_main fs main = load_main_doc fs main.
+Proof. unfold load_main, load_main_doc, second_pass_inside_import. cbv zeta. apply load_src_doc. Qed.
+
+(* the statements about metamodel_from_file as the source performs it *)
+Lemma links_spec_src fs main : aget BASE fs = None -> main <> BASE ->
+  serr (load_main fs main) = None -> backs (load_main fs main) = [] ->
+  forall l, In l (links (load_main fs main)) -> link_ok fs l.
+Proof. rewrite load_main_src_doc. apply links_spec. Qed.
+
+Lemma links_spec_safe_src fs main : aget BASE fs = None -> main <> BASE ->
+  serr (load_main fs main) = None -> safe fs (load_main fs main) = true ->
+  forall l, In l (links (load_main fs main)) -> link_ok fs l.
+Proof. rewrite load_main_src_doc. apply links_spec_safe. Qed.
+
+Lemma final_lookup_src fs main : aget BASE fs = None -> main <> BASE -> serr (load_main fs main) = None ->
+  forall name c, lookup (load_main fs main) main name = Some c -> Some (cls_key c) = spec_resolve fs main name.
+Proof. rewrite load_main_src_doc. apply final_lookup. Qed.
+
+Lemma final_lookup_none_src fs main : aget BASE fs = None -> main <> BASE -> serr (load_main fs main) = None ->
+  forall name, has_dot name = false -> lookup (load_main fs main) main name = None -> spec_resolve fs main name = None.
+Proof. rewrite load_main_src_doc. apply final_lookup_none. Qed.
+
+Lemma classes_fqn_src fs main : main <> BASE ->
+  forall a n c, lookup_in (load_main fs main) a n = Some c ->
+    c_ns c = a /\ c_name c = n /\ fqn c = (if str_eqb a BASE then n else a ++ DOT :: n).
+Proof. rewrite load_main_src_doc. apply classes_fqn. Qed.
+
+Lemma one_class_set_src fs main : main <> BASE ->
+  (forall a n c a' n' c',
      lookup_in (load_main fs main) a n = Some c -> lookup_in (load_main fs main) a' n' = Some c' ->
      c_id c = c_id c' -> a = a' /\ n = n') /\
   (serr (load_main fs main) = None ->
    created (load_main fs main) = length base_names + nrules_of fs (loads (load_main fs main))).
-Proof. intro H. split; [apply classes_distinct; exact H | apply created_count]. Qed.
+Proof. rewrite load_main_src_doc. apply one_class_set. Qed.
+
+Lemma loads_once_src fs main : main <> BASE -> NoDup (loads (load_main fs main)).
+Proof. rewrite load_main_src_doc. apply loads_once. Qed.
+
+Lemma load_main_terminates_src fs main : serr (load_main fs main) <> Some EFuel.
+Proof. rewrite load_main_src_doc. apply load_main_terminates. Qed.
